@@ -33,12 +33,18 @@ def raw(g, level):
     return Instr(nm, "raw", args=g.pick(ARG_POOL), spelling=sp, group=(g.r.randint(1, 3) if g.chance(0.3) else None))
 
 
-def mutate(g, it, nmut=None):
+SAFE_OPS = ["delete", "dup", "reorder", "move", "retarget", "kindflip", "wrong_level", "shape", "hint", "param"]
+ODD_OPS = ["param", "param", "delete", "reorder", "retarget", "enum_existing"]
+
+
+def mutate(g, it, nmut=None, safe=False, ops=None):
+    """safe=True: only structure-level mutations that keep every embedded type / pattern / expression a well-formed
+    fragment for the position it ends up in being *parsed* as (C17's premise)."""
     r = g.r
     it = it.copy()
     for _ in range(nmut or r.randint(1, 4)):
         lists = list(it.all_attr_lists())
-        op = r.choice(["delete", "dup", "reorder", "move", "add_raw", "add_raw", "splice_args", "empty_args", "retarget", "kindflip", "wrong_level", "shape"])
+        op = r.choice(ops) if ops else r.choice(SAFE_OPS if safe else ["delete", "dup", "reorder", "move", "add_raw", "add_raw", "splice_args", "empty_args", "retarget", "kindflip", "wrong_level", "shape", "hint", "param"])
         lvl, owner, lst = r.choice(lists)
         if op == "delete" and lst:
             del lst[r.randrange(len(lst))]
@@ -47,8 +53,9 @@ def mutate(g, it, nmut=None):
         elif op == "reorder" and len(lst) > 1:
             r.shuffle(lst)
         elif op == "move" and lst:
+            same = [l for l in lists if (l[0] == lvl or {l[0], lvl} <= {"field", "vfield"})] if safe else lists
             x = lst.pop(r.randrange(len(lst)))
-            _, _, dst = r.choice(lists)
+            _, _, dst = r.choice(same)
             dst.insert(r.randint(0, len(dst)), x)
         elif op == "add_raw":
             lst.insert(r.randint(0, len(lst)), raw(g, "type" if lvl == "type" else "member"))
@@ -81,8 +88,30 @@ def mutate(g, it, nmut=None):
         elif op == "wrong_level" and lst:
             x = r.choice(lst).copy()
             # struct-only instructions onto variant fields etc.
-            tgt = r.choice(lists)[2]
+            same = [l for l in lists if (l[0] == lvl or {l[0], lvl} <= {"field", "vfield"})] if safe else lists
+            tgt = r.choice(same)[2]
             tgt.append(x)
+        elif op == "enum_existing":
+            if it.kind == "enum":
+                cps = [a.f["ty"] for a in it.attrs if a.kind == "trait"] or ["A"]
+                nm = r.choice(["into_existing", "owned_into_existing", "ref_into_existing", "try_into_existing"])
+                it.attrs.append(Instr(nm, "trait", ty=r.choice(cps), hint=None, err="Ee" if nm.startswith("try") else None, params=[]))
+        elif op == "hint":
+            ts = [a for a in it.attrs if a.kind == "trait"]
+            if ts:
+                r.choice(ts).f["hint"] = r.choice([None, "{}", "()", "Unit"])
+            vs = [v for v in it.variants]
+            if vs and g.chance(0.5):
+                v = r.choice(vs)
+                v.attrs = [a for a in v.attrs if a.kind != "type_hint"] + [Instr("type_hint", "type_hint", container=None, hint=r.choice(["{}", "()", "Unit"]))]
+        elif op == "param":
+            ts = [a for a in it.attrs if a.kind == "trait"]
+            if ts:
+                t = r.choice(ts)
+                k = g.mark()
+                ps = [p for p in (t.f.get("params") or []) if p[0] not in ("update", "return", "default")]
+                ps.append(r.choice([("update", f"k{k}()"), ("return", f"k{k}(@)"), ("default", f"=> k{k}()")]))
+                t.f["params"] = ps
         elif op == "shape":
             if it.kind == "struct":
                 ch = r.choice(["unit", "empty_named", "empty_tuple", "swap"])
@@ -143,3 +172,69 @@ def gen_item(g):
 
 def gen(g):
     return gen_item(g).render()
+
+
+def wild(g):
+    """'odd but accepted' candidates: every instruction is drawn from its own documented grammar for the level it
+    sits on (well-formed fragments), but hints, params, shapes and instruction combinations are not coherent."""
+    r = g.r
+    it = xgen.gen(g)
+    it = mutate(g, it, nmut=r.randint(0, 3), safe=True)
+    cps = [a.f["ty"] for a in it.attrs if a.kind == "trait"] or ["A"]
+    # incoherent extras
+    for _ in range(r.randint(0, 3)):
+        k = g.mark()
+        roll = r.random()
+        if roll < 0.25:
+            nm = g.pick(ALL_TRAIT_NAMES)
+            fal = nm in xgen.FALLIBLE_NAME.values()
+            ps = []
+            if g.chance(0.5):
+                ps.append(r.choice([("update", f"k{k}()"), ("return", f"k{k}(@)"), ("default", f"=> k{k}()"), ("vars", [(f"v{k}", f"k{k}()")])]))
+            it.attrs.append(Instr(nm, "trait", ty=r.choice(cps + [f"N{k}"]), hint=r.choice([None, None, "{}", "()", "Unit"]), err="Ew" if fal else None, params=ps))
+        elif roll < 0.4:
+            named = g.chance(0.5)
+            it.attrs.append(Instr(r.choice(["ghosts", "ghosts_owned", "ghosts_ref"]), "ghosts", container=(r.choice(cps) if g.chance(0.3) else None),
+                                  entries=[dict(path=(r.choice(["pa", "pa.pb"]) if g.chance(0.2) else None), ident=(f"g{k}" if named else r.randint(0, 5)), action=f"k{k}()")]))
+        else:
+            ms = it.fields if it.kind == "struct" else it.variants
+            if not ms:
+                continue
+            m = r.choice(ms)
+            if it.kind == "enum" and m.fields and g.chance(0.5):
+                m = r.choice(m.fields)
+                lvl = "vfield"
+            else:
+                lvl = "field" if it.kind == "struct" else "variant"
+            c = r.choice(cps) if g.chance(0.25) else None
+            opts = ["map", "ghost"]
+            if lvl == "field":
+                opts += ["child", "parent", "parent_args", "as_type"]
+            if lvl == "variant":
+                opts += ["type_hint", "literal", "pattern", "ghosts"]
+            o = r.choice(opts)
+            if o == "map":
+                named = g.chance(0.6)
+                m.attrs.append(Instr(r.choice(xgen.MEMBER_MAP_NAMES), "map", container=c, member=((f"m{k}" if named else r.randint(0, 3)) if g.chance(0.6) else None),
+                                     action=(f"k{k}(~)" if g.chance(0.6) else None), braced=g.chance(0.3), parens=True))
+                if m.attrs[-1].f["member"] is None and m.attrs[-1].f["action"] is None:
+                    m.attrs[-1].f["action"] = f"k{k}(@)"
+            elif o == "ghost":
+                m.attrs.append(Instr(r.choice(["ghost", "ghost_owned", "ghost_ref"]), "ghost", container=c, action=(f"k{k}()" if g.chance(0.7) else None), braced=True, bar=True))
+            elif o == "child":
+                m.attrs.append(Instr("child", "child", container=c, path=r.choice(["pa", "pa.pb", "pc", "0", "pa.0"])))
+            elif o == "parent":
+                m.attrs.append(Instr("parent", "parent", container=c, fields=None))
+            elif o == "parent_args":
+                m.attrs.append(Instr("parent", "parent", container=c, fields=r.choice([f"x{k}, y{k}", f"[map(m{k})] x{k}, y{k}", f"x{k}, [parent(a{k}, b{k})] q{k}: Q{k}", f"0, 1", f"[map(z{k})] 0, 1"])))
+            elif o == "as_type":
+                m.attrs.append(Instr("as_type", "as_type", container=c, member=None, ty="i64"))
+            elif o == "type_hint":
+                m.attrs.append(Instr("type_hint", "type_hint", container=c, hint=r.choice(["{}", "()", "Unit"])))
+            elif o == "literal":
+                m.attrs.append(Instr("literal", "literal", container=c, tokens=str(k)))
+            elif o == "pattern":
+                m.attrs.append(Instr("pattern", "pattern", container=c, tokens=r.choice([f"{k}..={k + 3}", "_"])))
+            elif o == "ghosts":
+                m.attrs.append(Instr("ghosts", "ghosts", container=c, entries=[dict(path=None, ident=(f"g{k}" if g.chance(0.5) else r.randint(0, 3)), action=f"k{k}()")]))
+    return it
